@@ -66,6 +66,17 @@ var vhC06Inner = []string{
 	"{% macro k(a, b=spyfn()) %}{{ a }}{{ b }}{% endmacro %}{{ k(x) }}",
 	"{% import 'lib' as l %}{{ l.m(spyfn()) }}",
 	"{% include 'mid' %}",
+	// libraries and layouts whose forbidden name stands at their top level (outside macros / blocks)
+	"{% from 'libtop' import m %}{{ m(x) }}",
+	"{% from 'libtop' import m as g %}{{ g(x) }}",
+	"{% import 'libtop' as l %}{{ l.m(x) }}",
+	"{% from 'libtopfilter' import m %}{{ m(x) }}",
+	"{% import 'libtopfilter' as l %}ok",
+	"{% include 'setstop' %}",
+	"{% extends 'basetop' %}",
+	"{% include 'includer-of-libtop' %}",
+	"{% for i in xs %}{% from 'libtop' import m %}{% endfor %}",
+	"{% macro k() %}{% from 'libtop' import m %}{{ m(1) }}{% endmacro %}{{ k() }}",
 }
 
 func vhC06Engine(pol SecurityPolicy, spyF func(), spyFn func()) *Engine {
@@ -86,6 +97,11 @@ func vhC06Engine(pol SecurityPolicy, spyF func(), spyFn func()) *Engine {
 	e.RegisterString("base", "[{% block b %}d{% endblock %}]")
 	e.RegisterString("basespy", "[{% block b %}{{ x|spy }}{% endblock %}]")
 	e.RegisterString("lib", "{% macro m(p) %}({{ p|spy }}{{ spyfn() }}){% endmacro %}")
+	e.RegisterString("libtop", "{% set t = spyfn() %}{% macro m(p) %}({{ p }}){% endmacro %}")
+	e.RegisterString("libtopfilter", "{% set t = 'x'|spy %}{% macro m(p) %}({{ p }}){% endmacro %}")
+	e.RegisterString("setstop", "{% set t = spyfn() %}{% do 'q'|spy %}s")
+	e.RegisterString("basetop", "{% set t = spyfn() %}[{% block b %}d{% endblock %}]")
+	e.RegisterString("includer-of-libtop", "{% from 'libtop' import m %}{{ m(2) }}")
 	return e
 }
 
